@@ -142,7 +142,6 @@ func (t *Term) setRange() {
 	}
 }
 
-
 var noRange = os.Getenv("SYMGO_NORANGE") != ""
 
 func mask(w int) uint64 {
